@@ -277,6 +277,23 @@ func c19Equivalences(c *Ctx) {
 			}
 		}
 	}
+	// every pair of types with different base types, other than an enum and its underlying integer, conflicts — plain and
+	// element-wise under the wrappers
+	reps := []string{"Int8", "Int16", "Int32", "Int64", "Int128", "Int256", "UInt8", "UInt16", "UInt32", "UInt64", "UInt128", "UInt256",
+		"Float32", "Float64", "String", "FixedString(8)", "Bool", "UUID", "Date", "Date32", "DateTime", "DateTime64(3)", "IPv4", "IPv6",
+		"Enum8('a' = 1)", "Enum16('a' = 1)", "Decimal32", "Decimal64", "Decimal128", "Decimal256", "Nothing", "IntervalSecond", "Point",
+		"Array(Int8)", "Nullable(Int8)", "LowCardinality(String)", "Map(String, Int8)", "Tuple(Int8)"}
+	allowed := map[string]bool{"Enum8('a' = 1)|Int8": true, "Int8|Enum8('a' = 1)": true, "Enum16('a' = 1)|Int16": true, "Int16|Enum16('a' = 1)": true}
+	for _, w := range []string{"%s", "Array(%s)", "Nullable(%s)", "LowCardinality(%s)"} {
+		for _, a := range reps {
+			for _, b := range reps {
+				if a == b || allowed[a+"|"+b] {
+					continue
+				}
+				eqs = append(eqs, eq{fmt.Sprintf(w, a), fmt.Sprintf(w, b), true, "base mismatch"})
+			}
+		}
+	}
 	for _, e := range eqs {
 		for _, swap := range []bool{false, true} {
 			a, b := e.a, e.b
